@@ -140,8 +140,8 @@ func (dec *yamlDecoder) Decode() (*CandidateNode, error) {
 		return nil, err
 	}
 
-	candidateNode.HeadComment = yamlNode.HeadComment + candidateNode.HeadComment
-	candidateNode.FootComment = yamlNode.FootComment + candidateNode.FootComment
+	candidateNode.HeadComment = joinDocumentComment(yamlNode.HeadComment, candidateNode.HeadComment)
+	candidateNode.FootComment = joinDocumentComment(yamlNode.FootComment, candidateNode.FootComment)
 
 	if dec.leadingContent != "" {
 		candidateNode.LeadingContent = dec.leadingContent
@@ -150,6 +150,15 @@ func (dec *yamlDecoder) Decode() (*CandidateNode, error) {
 	dec.readAnything = true
 	dec.documentIndex++
 	return &candidateNode, nil
+}
+
+// joinDocumentComment puts the document's comment in front of the root node's comment,
+// on a line of its own when both are present.
+func joinDocumentComment(documentComment string, nodeComment string) string {
+	if documentComment != "" && nodeComment != "" {
+		return documentComment + "\n" + nodeComment
+	}
+	return documentComment + nodeComment
 }
 
 func (dec *yamlDecoder) blankNodeWithComment() *CandidateNode {
